@@ -145,7 +145,7 @@ def step (st : St) (line : String) : St × String :=
         match firstDiff h.hosts want 0 with
         | none => (st, s!"same {want.length}")
         | some i => (st, s!"diff {i} {h.hosts.length} {want.length}")
-  | ["pranges", "n"] =>
+  | ["pranges", "n"] | ["pranges", "N"] =>
     -- hostlist_next_range on a fresh iterator until NULL (the list itself, nothing is moved)
     let outs := (nextRangeCalls (st.rs.length + 1) st.rs).map fun b =>
       let oob := b.oob RANGEBUF
